@@ -5,6 +5,17 @@ from .values import *   # noqa
 
 
 def len_of(interp, v):
+    if v.kind == 'snap':
+        # |dom Cnt|: an uninterpreted cardinality with the one instance of counting lemma L1 that callers need
+        # (a set with an element has cardinality >= 1); listed as an assumption
+        g = v.g
+        T = fresh('card_snapshots', Int)
+        q = z3.Int('q?card')
+        interp.ctx.assume(T >= 0, 'card')
+        interp.ctx.assume(z3.ForAll([q], z3.Implies(g['SKey'][q], T >= 1), patterns=[g['SKey'][q]]), 'card')
+        interp.ctx.notes.append('assumed: counting lemma L1 instance (non-empty dom Cnt has cardinality >= 1)')
+        interp.ctx.card_snap = T
+        return VInt(T)
     raise Undecided('len() of %s' % v.kind)
 
 
